@@ -55,6 +55,25 @@ func init() {
 			}
 		},
 		gen: func(r *rand.Rand) Case {
+			if r.Intn(5) == 0 {
+				// part C: several Readline calls on one shell, each ended by one of the accept commands; every
+				// call must return at its accepting key, and return the buffer as it was at that key
+				accepts := []string{"\r", "\n", "\x18\x1aa", "\x18\x1ab", "\x18\x1ac"} // RET, C-j, accept-and-hold, operate-and-get-next, accept-and-infer-next-history
+				edits := []string{"a", "b", " ", "x", "\x01", "\x05", "\x02", "\x06", "\x17", "\x0b", "\x7f", "\x1bb", "\x1bf", "\x14"}
+				sp := Spec{Prompt: "> ", Mode: "emacs", Runs: 2 + r.Intn(3), History: stdHistory,
+					Binds: []Bind{{Seq: `\C-x\C-za`, Cmd: "accept-and-hold"}, {Seq: `\C-x\C-zb`, Cmd: "operate-and-get-next"}, {Seq: `\C-x\C-zc`, Cmd: "accept-and-infer-next-history"}}}
+				var keys []string
+				var ends []string
+				for run := 0; run < sp.Runs; run++ {
+					for k := 1 + r.Intn(6); k > 0; k-- {
+						keys = append(keys, edits[r.Intn(len(edits))])
+					}
+					keys = append(keys, "z", accepts[r.Intn(len(accepts))])
+					ends = append(ends, fmt.Sprint(len(keys)))
+				}
+				sp.Chunks = hexChunks(keys)
+				return Case{Specs: []Spec{sp}, Class: "acceptance/emacs", Meta: map[string]string{"part": "acceptance", "ends": strings.Join(ends, ",")}}
+			}
 			if r.Intn(2) == 0 {
 				// part A: state invariants at every wait of a random session; returned line = accepted buffer
 				sp := baseSpec(r)
@@ -106,6 +125,37 @@ func init() {
 		oracle: func(c Case, trs []Trace) []Finding {
 			tr := trs[0]
 			var fs []Finding
+			if c.Meta["part"] == "acceptance" {
+				if tr.Hang {
+					return nil
+				}
+				for _, res := range tr.Results {
+					if res.Panic != "" {
+						return nil
+					}
+				}
+				ends := strings.Split(c.Meta["ends"], ",")
+				for i, e := range ends {
+					var end int
+					fmt.Sscan(e, &end)
+					if i >= len(tr.Results) {
+						break
+					}
+					res := tr.Results[i]
+					stat("acceptance: call decided")
+					if res.Err == "end-of-script" {
+						return []Finding{{"C06", "accept-key-does-not-return", fmt.Sprintf("call %d of %d did not return at its accepting key", i+1, len(ends)), c}}
+					}
+					// the accepting key is chunk end-1: it is read at wait number `end` (1-based), so NWaits == end
+					if res.NWaits != end {
+						return []Finding{{"C06", "returned-without-acceptance", fmt.Sprintf("call %d of %d returned %q after %d input waits; its accepting key is read at wait %d", i+1, len(ends), res.Line, res.NWaits, end), c}}
+					}
+					if w := tr.Waits[end-1]; res.Line != w.Line {
+						return []Finding{{"C06", "returned-differs-from-buffer", fmt.Sprintf("call %d of %d: buffer %q at the accepting key, returned %q", i+1, len(ends), w.Line, res.Line), c}}
+					}
+				}
+				return nil
+			}
 			if c.Meta["part"] == "movement" {
 				if tr.Hang || len(tr.Waits) == 0 {
 					return nil // crash or hang: C01's business
